@@ -50,9 +50,11 @@ def main(c):
             if var in ("s3h", "s3q"):
                 a, b, cc = rnd.choice(["GET", "PUT", "HEAD", "DELETE", rs(UNRES, 3)]), rs(UNRES, ln()), "/" + rs(UNRES + "/", ln())
             elif var == "svc":
-                a, b, cc = rnd.choice(["ec2", "sns", "email", rs(UNRES, rnd.choice([1, 2, 3, 10]))]), "", ""
+                # (service names that other entry points of the module treat specially must be ordinary here)
+                a, b, cc = rnd.choice(["ec2", "sns", "email", "dynamodb", "s3", "dynamodb", "DynamoDB", "streams.dynamodb", rs(UNRES, rnd.choice([1, 2, 3, 10]))]), "", ""
             else:
-                a, b, cc = rs(UNRES, ln()), "", ""
+                # DynamoDB operation names, incl. the ones that look like other arguments of the module
+                a, b, cc = rnd.choice([rs(UNRES, ln()), "PutItem", "GetItem", "dynamodb", "s3", "x-amz-target"]), "", ""
             exp = rnd.choice([0, 1, 60, 604800, 2147483647, -1, -2147483647])
         prev = (var, t, keyid, secret, region, a, b, cc, body, exp)
         if rnd.random() < 0.08:
